@@ -215,6 +215,45 @@ def _layout_worker(args):
     return evals, dict(notes), fails
 
 
+def _small_worker(args):
+    """the bounded-exhaustive stream of small trees (lib_c14.small_trees): slice idx::n, widths 1..6 and the
+    widths =, +-1 around every structural threshold (measured minimum / maximum, explicit width options)"""
+    idx, n, quick = args
+    import collections
+
+    import lib_c14 as L
+    from rich.console import Console
+    from rich.measure import Measurement
+
+    con = _layout_eval.con = Console(file=io.StringIO(), width=80, color_system=None)
+    sites = ["Console.render", "Measurement.get"]  # Console.print is the same path + crop: kept for the random trees
+    notes = collections.Counter()
+    fails = []
+    evals = 0
+    for k, desc in enumerate(L.small_trees()):
+        if k % n != idx:
+            continue
+        notes["small:kind:" + desc[0]] += 1
+        ths = set(L.option_widths(desc))
+        try:
+            with L.watchdog(10):
+                m = Measurement.get(con, L.build(desc), 200)
+            ths |= {m.minimum, m.maximum}
+        except BaseException as e:  # noqa: BLE001 - reported through the evaluation below (width 200 is among the widths then)
+            if isinstance(e, KeyboardInterrupt):
+                raise
+            ths.add(200)
+        base = {1, 2, 3, 5} if quick and desc[0] == "table" else {1, 2, 3, 4, 5, 6}
+        widths = sorted(base | {t + d for t in ths for d in (-1, 0, 1) if 1 <= t + d <= 200})
+        notes["small:widths"] += len(widths)
+        for w in widths:
+            res = _layout_eval(desc, w, sites)
+            evals += len(sites)
+            for site, cls, tb in res:
+                fails.append((site, cls, classify_layout(cls, desc, w, tb), repr((desc, w)), tb[-500:]))
+    return evals, dict(notes), fails
+
+
 # ---------------------------------------------------------------------------------------------- the run
 def run(ctx):
     from rich.ansi import AnsiDecoder
@@ -229,12 +268,22 @@ def run(ctx):
     V = RGB_VALUEERROR
     ctx.assumptions += [
         "character tables of the running CPython (str.isspace, \\d = str.isdecimal, int(), str.lower, sys.get_int_max_str_digits) enter the model as the parameter PyStr; "
-        "the theorems hold for every PyStr, the driver's instance (Gen/PyLower, Gen/PyDigits, Gen/TextTables) is compared with the running Python below",
+        "the theorems hold for every PyStr (= C06's StrTables), the driver's instance (StrTables.real over Gen/StrTables.lean, harness/gen/str_tables.py) is compared with the running Python below",
         "str.lower() of GREEK CAPITAL SIGMA depends on its neighbours: strings containing it are answered `unmodelled` (direct evaluation still runs)",
         "functools.lru_cache on Color.parse / Style.parse / Style.normalize assumed transparent (the public, cached functions are what is called)",
         "lone surrogates are outside the line protocol (Lean Char has none) and outside the generators",
-        "ANSI decoder, Text(), Console.print and the layout trees: direct evaluation only in this property (models: C19, C05, C02, C07, C08)",
+        "the highlighter is a parameter of print_plain_total with the contract `every span inside [0, len]`; rich's ReprHighlighter is exercised through Console.print(highlight=True) (direct evaluation), the print correspondence runs with highlighting off",
+        "ANSI decoder and layout trees: theorems over C19's / C01-C09's models (tied to rich by those properties' checks), direct evaluation here",
     ]
+    import time as _time
+
+    phases = ctx.extra_cov.setdefault("phase_s", {})
+    _t = [_time.time()]
+
+    def _phase(name):
+        phases[name] = round(_time.time() - _t[0], 1)
+        _t[0] = _time.time()
+
     seen_strings = []  # every generated string also goes to Text() and Console.print(markup=False) at the end
 
     # ---- 0. the driver's character tables vs the running Python --------------------------------------
@@ -264,6 +313,7 @@ def run(ctx):
                 ctx.case("c14_int", [enc_str(s)], "-" if cls else str(v), shape="long")
     ctx.flush()
 
+    _phase('tables')
     # ---- 1. Color.parse ------------------------------------------------------------------------------
     def color_case(s, shape):
         cls, c = observe(lambda: Color.parse(s))
@@ -304,6 +354,7 @@ def run(ctx):
             color_case(s, "random")
     ctx.flush()
 
+    _phase('color')
     # ---- 2. Style.parse / Style.normalize ---------------------------------------------------------------
     def style_case(s, shape):
         cls, st = observe(lambda: Style.parse(s))
@@ -331,6 +382,7 @@ def run(ctx):
             style_case(s, "random")
     ctx.flush()
 
+    _phase('style')
     # ---- 3. markup.render / Console.print(markup) ----------------------------------------------------
     con_m = Console(file=io.StringIO(), width=30, color_system=None)
 
@@ -363,6 +415,7 @@ def run(ctx):
     con_m.file.truncate()
     ctx.flush()
 
+    _phase('markup')
     # ---- 4. Console.get_style ---------------------------------------------------------------------------
     con_g = Console(file=io.StringIO(), width=30)
     theme_names = ["none", "bold", "repr.number", "rule.line", "table.header", "bar.back", "Bold", "repr.nope", "red"]
@@ -383,6 +436,7 @@ def run(ctx):
         seen_strings.append(n)
     ctx.flush()
 
+    _phase('get_style')
     # ---- 5. AnsiDecoder.decode (direct evaluation; the decoder's model is C19's) ------------------------
     def ansi_case(s):
         cls, _ = observe(lambda: list(AnsiDecoder().decode(s)))
@@ -407,6 +461,7 @@ def run(ctx):
         ctx.check(cls is None, "AnsiDecoder.decode(shared)", s, f"decode({s!r}) on a decoder with carried style raised {cls}", finding=classify_ansi(cls, s))
         seen_strings.append(s)
 
+    _phase('ansi')
     # ---- 6. Text() and Console.print(markup=False) on everything generated so far ----------------------
     widths = [1, 2, 3, 5, 8, 13, 40, 200]
     cons = {(w, hl): Console(file=io.StringIO(), width=w, color_system=None, highlight=hl) for w in widths for hl in (True, False)}
@@ -434,18 +489,33 @@ def run(ctx):
             if i % 50 == 0:
                 con.file.seek(0)
                 con.file.truncate()
-        if i % 7 == 0:
+        if i % 3 == 0 and len(s) <= 300:
+            # correspondence of the composed pipeline (Model/TotalityPrint.lean): the characters written to the file
+            w = widths[(i // 3) % len(widths)]
+            ov = [None, "fold", "crop", "ellipsis", "ignore"][(i // 3) % 5]
+            nw = [None, False, True][(i // 15) % 3]
+            crop = (i // 45) % 4 != 0
+            e = ["\n", "", "E"][(i // 9) % 3]
+            pc = Console(file=io.StringIO(), width=w, color_system=None, highlight=False, emoji=False)
+            cls, _ = observe(guarded(lambda: pc.print(s, markup=False, overflow=ov, no_wrap=nw, crop=crop, end=e)))
+            ctx.check(cls is None, "Console.print(markup=False)", (s, w, ov, nw, crop, e), f"print({s!r}, markup=False, overflow={ov}, no_wrap={nw}, crop={crop}, end={e!r}) at width {w} raised {cls}")
+            ans = "ok:" + enc_str(pc.file.getvalue()) if cls is None else "err:Other:" + cls
+            ctx.case("c14_print_plain", [w, ov or "-", "-" if nw is None else int(nw), int(crop), enc_str(" "), enc_str(e), enc_str(s)], ans,
+                     shape="w%d:%s" % (w, ov), sample=f"Console(width={w}).print({s!r}, markup=False, overflow={ov}, no_wrap={nw}, crop={crop}, end={e!r})")
+        if i % 11 == 0:
             w = widths[i % len(widths)]
             for kw in ({"justify": "full"}, {"overflow": "ellipsis", "no_wrap": True}, {"soft_wrap": True}, {"justify": "right", "overflow": "crop"}, {"emoji": False, "highlight": False, "end": ""}):
                 cls, _ = observe(guarded(lambda: cons[(w, True)].print(s, markup=False, **kw)))
                 ctx.check(cls is None, "Console.print(markup=False)", (s, w, kw), f"print({s!r}, markup=False, **{kw}) at width {w} raised {cls}")
 
+    _phase('text_print')
     # ---- 7. trees of built-in renderables x widths -------------------------------------------------------
     n_workers = 12
-    per = 400 if quick else 6000
+    per = 250 if quick else 6000
     jobs = [(ctx.seed, i, per, 3 if i % 3 else 4) for i in range(n_workers)]
     with multiprocessing.get_context("fork").Pool(n_workers) as pool_:
-        results = pool_.map(_layout_worker, jobs)
+        results = pool_.map(_small_worker, [(i, n_workers, quick) for i in range(n_workers)])
+        results += pool_.map(_layout_worker, jobs)
     for evals, notes, fails in results:
         for k, v in notes.items():
             ctx.note(k, v)
@@ -453,12 +523,13 @@ def run(ctx):
         for site, cls, slug, inp, tb in fails:
             ctx.check(False, site if site != "build" else "constructor", inp, f"{cls} (documented: rendering and measuring a tree of built-in renderables with valid options at width >= 1 never raise) … {tb}", finding=slug)
 
+    _phase("layout")
     ctx.rule = (
         "Color.parse: %d prefixes x every string <= %d over %r + rgb(<every string <= %d over %r>) + listed + seeded random; "
         "Style.parse/normalize: every sequence of <= %d words over %d words + seeded random with Unicode separators; "
         "markup: every string <= %d over %d tokens + every sequence of <= %d tags over %d tags + random; get_style: names x defaults; "
         "ANSI: every string <= %d over %d tokens; Text()/print(markup=False): all of the above at widths %r, highlighter on/off; "
-        "layout: %d seeded random trees (depth <= 4, 15 kinds of renderable) x 3 widths in 1..200 x {render, measure, print}; "
+        "layout: every small tree of lib_c14.small_trees (every kind x every boolean/enum option value x small and threshold numeric options, depth <= 2) x widths 1..6 (tables in the quick tier: 1,2,3,5) and =,+-1 around measured min/max and explicit width options; %d seeded random trees (depth <= 4, 15 kinds of renderable) x 3 widths in 1..200 x {render, measure, print}; "
         "distinct = distinct canonical requests to the model"
         % (len(COLOR_PRE), body_n, COLOR_BODY, 5 if quick else 7, RGB_IN, nwords, len(STYLE_WORDS), 3 if quick else 4, len(MARKUP_TOK), 2 if quick else 3, len(MARKUP_TAGS), 3 if quick else 4, len(ANSI_TOK), widths, n_workers * per)
     )
@@ -473,33 +544,40 @@ def replay(ctx, case):
 
 
 MANIFEST = {
-    "text": "Lean 4 theorems (Props/C14.lean) over an executable model of the exception layer of the string entry points, "
-    "for ALL code points and for EVERY character table of the running Python (str.isspace, \\d/int() digit values, str.lower, "
-    "the int() digit limit enter as the parameter PyStr): color_parse_total (ok or ColorParseError), style_parse_total (ok or "
-    "StyleSyntaxError), normalize_total (never raises), markup_render_total (ok or MarkupError; the render loop is C04's with a "
-    "normalize that may raise, proved equal to C04's render when it does not), get_style_total (ok or MissingStyle, any theme "
-    "stack, any default), panel_total (valid padding => Panel renders and measures); old_* witnesses (by decide) show the Color.parse of "
-    "rich 9.10.0 as found (before fix c34676b) letting int()'s ValueError out of every one of these entry points (F9) and C07's table solver "
-    "as found (before fixes 1d61bac, ab98098) failing its assertion for a table without columns and for a zero-ratio column at a width spent "
-    "on the borders. "
-    "Tie: ~160k (quick; evidence/C14.json: 158,408 compared) / ~2.5M (thorough) generated strings compared model-vs-rich on outcome class AND value (colour fields, "
-    "str(style), normal form, plain text + spans), the driver's Unicode tables compared with the running interpreter; direct "
-    "evaluation of the exception class at Color.parse, Style.parse, Style.normalize, markup.render, Console.get_style, "
-    "AnsiDecoder.decode, Text(), Console.print(markup on/off, widths 1..200, highlighter on/off) and of Console.render / "
-    "Measurement.get / Console.print over seeded random trees of 15 kinds of built-in renderables x widths 1..200.",
-    "note": "PARTIAL: the ANSI decoder, Text(), Console.print(markup=False) and the renderable trees are covered by direct "
-    "evaluation on real rich only (no theorem in this property).  Totality theorems that exist in other properties' files: the decoder is "
-    "C19.decode_total (Model/Ansi.lean, Cfg.intRaises=false: the decoder answers for every string); the table solver is "
-    "C07.calc_widths_total / table_render_total / rich_measure_total (Flags with noColumnsAsserts = flexNegative = false); Columns is "
-    "C08.columns_repaired_never_raises.  Still without a theorem anywhere: text_ctor_total / print_plain_total (C05's inv_init and "
-    "render_view are the ingredients, a wrap_total is missing; Model/Text.lean and Model/ColorParse.lean both declare RichModel.Variant "
-    "and cannot be imported together) and a layout_total over the inductive tree of renderables (C01/C09 state width and measurement "
-    "bounds on Model/Layout.lean, not the absence of exceptions).  Direct evaluation only sees mutations that raise (or mis-measure). "
-    "Trusted: Lean kernel; propext/Classical.choice/Quot.sound; translator + plug-in harness/gen/py_lower.py (str.lower table; "
-    "strings containing GREEK CAPITAL SIGMA are unmodelled: final-sigma rule); the correspondence harness; lru_cache on the parsers "
-    "assumed transparent; lone surrogates excluded. On rich 9.10.0 as found the check reported F9 (rgb-component-valueerror), F10 "
-    "(ansi-sgr-int-valueerror), F11 (Columns ZeroDivisionError) and two new table findings (table-no-columns-assertion, "
-    "table-zero-ratio-narrow-assertion); all are repaired in /repo (fixes c34676b, 8dc20cb, f7ecf83, 1d61bac, ab98098), RGB_VALUEERROR "
-    "holds the repaired value 0 and the check exits 0 with no finding.",
+    "text": "Lean 4 theorems (Props/C14.lean), all unbounded.  (1) The exception layer of the string entry points over ALL code points and "
+    "for EVERY character table of the running Python (C06's StrTables: str.isspace, \\d/int() digit values, str.lower, the int() digit "
+    "limit; the parsers are C06's Color.parseT / Style.parseT / normalizeT - single source): color_parse_total (ok or ColorParseError), "
+    "style_parse_total (ok or StyleSyntaxError), normalize_total (never raises), markup_render_total (ok or MarkupError; the render loop is "
+    "C04's with a normalize that may raise, proved equal to C04's render when it does not), get_style_total (ok or MissingStyle, any theme "
+    "stack, any default).  (2) decode_total (C19's decoder model, intRaises=false: every string decodes, any carried style); "
+    "text_ctor_total (every string incl. control characters constructs a consistent Text); wrap_total (Text.wrap never raises and returns "
+    "consistent lines at EVERY width incl. 0 and 1, every width function, every justify/overflow/no_wrap, every tab size >= 1 - needs the "
+    "new divideLine_weak: the offsets of divide_line are ascending and inside the text at any width); text_render_total; "
+    "print_plain_total (Console.print(s, markup=False): render_str -> emoji -> highlighter (parameter with contract: spans inside [0,len]) "
+    "-> join -> Text.__rich_console__ -> crop never raises, any string, any width).  (3) layout_total over the inductive type R of "
+    "renderable trees of Model/Layout.lean (C01/C09): for valid options (consistent texts, padding an int or a 1/2/4-tuple; everything "
+    "else is valid by type) and the repaired code, at EVERY node, for every ConsoleOptions in force and every width handed down (any "
+    "natural number, far below the structural minimum) no raising branch is taken: texts wrap and render, Panel unpacks its padding, "
+    "Table._calculate_column_widths returns (C07's calcWidths_total on the table the composition layer builds, proved Sane here), Columns "
+    "lays out >= 1 column (C08) and its inner grid is solved.  old_* witnesses (by decide) show rich 9.10.0 as found raising at each of the "
+    "five defects (F9 at every string entry point, F10, the two table assertions, the layout poison for Table(expand) without columns and "
+    "Columns(width > console)).  Tie: ~160k (quick) / ~2.5M (thorough) generated strings compared model-vs-rich on outcome class AND value "
+    "(colour fields, str(style), normal form, plain text + spans; ~2.7k/65k Console.print(markup=False) outputs through the composed print "
+    "model), the driver's Unicode tables compared with the running interpreter; direct evaluation of the exception class at every entry "
+    "point of the statement, over a bounded-exhaustive stream of 4,319 small trees (every renderable kind x every boolean/enum option x "
+    "small/threshold numeric options, depth <= 2) x widths 1..6 and =,+-1 around every structural threshold, and over seeded random trees "
+    "of 15 kinds x widths 1..200.",
+    "note": "What the theorems assume: the highlighter's contract (checked per case on rich's ReprHighlighter through direct evaluation of "
+    "Console.print); CfgRepaired (the repaired code variants: what /repo contains); for layout_total the tree is one of Model/Layout.lean's "
+    "15 constructors (Pretty, Syntax, Markdown, Live are outside R) and titles/boxes outside the frame models' domain are the model's "
+    "`.ok none`, not an exception.  layout_total is stated as AllOk (the scrutinee of every Except/Option match of render/measure is not an "
+    "error, at every node, width and options) because render/measure are total Lean functions that map a raising branch to a poison value.  "
+    "The direct evaluation only sees mutations that raise, hang or mis-measure; wrong-but-silent output is the subject of C02/C05/C07/C08/"
+    "C19/C01/C09.  Trusted: Lean kernel; propext/Classical.choice/Quot.sound; translator + plug-in harness/gen/str_tables.py (C06's: "
+    "str.lower / isspace / decimal tables; strings containing GREEK CAPITAL SIGMA are unmodelled: final-sigma rule); the correspondence "
+    "harness; lru_cache on the parsers assumed transparent; lone surrogates excluded.  On rich 9.10.0 as found the check reported F9 "
+    "(rgb-component-valueerror), F10 (ansi-sgr-int-valueerror), F11 (columns-width-zero-division) and two new table findings "
+    "(table-no-columns-assertion, table-zero-ratio-narrow-assertion); all are repaired in /repo (fixes c34676b, 8dc20cb, f7ecf83, 1d61bac, "
+    "ab98098), RGB_VALUEERROR holds the repaired value 0 and the check exits 0 with no finding.",
     "design_ref": "DESIGN.md section 7, C14",
 }
